@@ -826,38 +826,33 @@ done:
 				switch tv := prev.(type) {
 				case map[string]any:
 					// Put prev back and slide fi.
-					stack[len(stack)-1] = prev
-					stack = append(stack, di|descentFlag)
+					stack = append(stack, prev, di|descentFlag)
 					for _, v = range tv {
 						stack = descentAddValue(stack, v, fi)
 					}
 				case []any:
 					// Put prev back and slide fi.
-					stack[len(stack)-1] = prev
-					stack = append(stack, di|descentFlag)
+					stack = append(stack, prev, di|descentFlag)
 					for i := len(tv) - 1; 0 <= i; i-- {
 						stack = descentAddValue(stack, tv[i], fi)
 					}
 				case Keyed:
 					// Put prev back and slide fi.
-					stack[len(stack)-1] = prev
-					stack = append(stack, di|descentFlag)
+					stack = append(stack, prev, di|descentFlag)
 					for _, k := range tv.Keys() {
 						v, _ = tv.ValueForKey(k)
 						stack = descentAddValue(stack, v, fi)
 					}
 				case Indexed:
 					// Put prev back and slide fi.
-					stack[len(stack)-1] = prev
-					stack = append(stack, di|descentFlag)
+					stack = append(stack, prev, di|descentFlag)
 					size := tv.Size()
 					for i := size - 1; 0 <= i; i-- {
 						stack = descentAddValue(stack, tv.ValueAtIndex(i), fi)
 					}
 				case gen.Object:
 					// Put prev back and slide fi.
-					stack[len(stack)-1] = prev
-					stack = append(stack, di|descentFlag)
+					stack = append(stack, prev, di|descentFlag)
 					for _, v = range tv {
 						switch v.(type) {
 						case map[string]any, []any, gen.Object, gen.Array, Keyed, Indexed:
@@ -867,8 +862,7 @@ done:
 					}
 				case gen.Array:
 					// Put prev back and slide fi.
-					stack[len(stack)-1] = prev
-					stack = append(stack, di|descentFlag)
+					stack = append(stack, prev, di|descentFlag)
 					for i := len(tv) - 1; 0 <= i; i-- {
 						v = tv[i]
 						switch v.(type) {
